@@ -1,6 +1,7 @@
 package main
 
 import (
+	"context"
 	"fmt"
 	"math/rand"
 	"sort"
@@ -285,10 +286,28 @@ func runC16(run *Run, replay string) {
 	}
 	for bi := 0; bi < bases; bi++ {
 		r := rand.New(rand.NewSource(subSeed(run.Res.Seed, bi)))
-		for _, sc := range genScenarios(r, ScenarioOpts{Histories: 2, Inject: bi%3 == 1, Gen: GenOpts{Degenerate: bi%5 == 4, DynFocus: bi%6 == 5}}) {
+		scs16 := genScenarios(r, ScenarioOpts{Histories: 2, Inject: bi%3 == 1, Gen: GenOpts{Degenerate: bi%5 == 4, DynFocus: bi%6 == 5}})
+		if bi == 0 {
+			// bodies found in one step, in two steps, only in the first of two steps, and not at all
+			scs16 = append(scs16, validationFocusScenarios()...)
+		}
+		for _, sc := range scs16 {
 			n := mergeCases(run, sc, 12)
 			n += linksOracle(run, sc)
 			linksCase(run, sc)
+			// validation sees the same body in force (the part of the schema that is known stays binding when the lookup fails)
+			if f := sc.Main.Ctx.Files[sc.File]; f != nil {
+				if body, ok := f.Body.(*hclsyntax.Body); ok {
+					if d, err := sc.W.Dec.Path(sc.Main.Path); err == nil {
+						res := safeCall("ValidateFile", func() (interface{}, error) { return d.ValidateFile(context.Background(), sc.File) })
+						if res.Panic == "" && res.Err == nil {
+							run.Case("validate", []S{sc.schemaS(), bodyS(body)}, diagsCanonical(res.Val.(hcl.Diagnostics)))
+							run.Count("validate_cases")
+							n++
+						}
+					}
+				}
+			}
 			run.Res.Evaluations += n
 			if n > 0 {
 				run.Distinct("merge|" + string(sc.Src))
